@@ -50,6 +50,14 @@ typedef Party {
 };
 Party P[N];
 byte bcast_done = 0;
+#ifdef DMAX
+byte steps = 0;      /* events so far: the conformance fragment is truncated at DMAX events */
+#define CAN (steps < DMAX)
+#define TICK steps++
+#else
+#define CAN true
+#define TICK skip
+#endif
 
 inline to_all(me, act, v)
 {
@@ -199,7 +207,7 @@ c_code {
 	}
 }
 #define PRE   c_code { printf("T "); dump_state(); };
-#define MID(me,l) c_code { printf("| M%d.%d | ", (int)(me), (int)(l)); };
+#define MID(me,l) c_code { printf("| M%d.%d | ", (int)PHonest->me, (int)PHonest->l); };
 #define POST  c_code { dump_state(); printf("\n"); };
 #else
 #define PRE   skip;
@@ -207,7 +215,7 @@ c_code {
 #define POST  skip;
 #endif
 
-#define PICK(k) :: nempty(link[(k)*N+me]) -> l = (k)
+#define PICK(k) :: nempty(link[(k)*N+me]) && CAN -> l = (k)
 proctype Honest(byte me)
 {
 	byte l, act, v, i_, k_, o_;
@@ -236,6 +244,7 @@ end:	do
 		PRE
 		link[l*N+me]?act,v;
 		handle(me, l, act, v);
+		TICK;
 		MID(me, l)
 		POST
 		l = 0; act = 0; v = 0; i_ = 0; k_ = 0; o_ = 0
@@ -248,12 +257,13 @@ proctype Broadcaster()
 {
 	byte i_;
 	atomic {
-		bcast_done == 0 ->
+		bcast_done == 0 && CAN ->
 #ifdef CONF
 		c_code { printf("T "); dump_state(); printf("| G%d.0 | ", SENDER); };
 #endif
 		to_all(SENDER, SEND, 1);
 		bcast_done = 1;
+		TICK;
 		i_ = 0;
 #ifdef CONF
 		c_code { dump_state(); printf("\n"); };
@@ -301,23 +311,35 @@ proctype Broadcaster()
 /* k-th honest party (ascending index) */
 #define HON(k) ((k) < BYZ -> (k) : (k) + 1)
 
-/* the Byzantine party: emits its scripted messages, each at an arbitrary time, in script order per recipient class */
+/* the Byzantine party: emits its scripted messages in script order, each at an arbitrary time */
+#ifdef CONF
+c_code {
+	static int scr_[12] = {BS0, BS1, BS2, BE0, BE1, BE2, BR0, BR1, BR2, BA0, BA1, BA2};
+	static int zidx(int k) { int i, c = 0; for (i = 0; i < k; i++) if (scr_[i]) c++; return c; }
+}
+#define ZPRE     c_code { printf("T "); dump_state(); };
+#define ZPOST(k) c_code { printf("| Z%d | ", zidx(k)); dump_state(); printf("\n"); };
+#else
+#define ZPRE     skip;
+#define ZPOST(k) skip;
+#endif
+#define BSTEP(k, val, to, act) :: atomic { step == (k) && ((val) == 0 || CAN) -> if :: ((val) != 0) -> ZPRE link[BYZ*N+(to)]!act,(val); TICK; ZPOST(k) :: else -> skip fi; step = (k) + 1 }
 proctype Byzantine()
 {
 	byte step = 0;
-	do
-	:: atomic { step == 0 -> if :: (BS0 != 0) -> link[BYZ*N+HON(0)]!SEND,BS0 :: else -> skip fi; step = 1 }
-	:: atomic { step == 1 -> if :: (BS1 != 0) -> link[BYZ*N+HON(1)]!SEND,BS1 :: else -> skip fi; step = 2 }
-	:: atomic { step == 2 -> if :: (BS2 != 0) -> link[BYZ*N+HON(2)]!SEND,BS2 :: else -> skip fi; step = 3 }
-	:: atomic { step == 3 -> if :: (BE0 != 0) -> link[BYZ*N+HON(0)]!ECHO,BE0 :: else -> skip fi; step = 4 }
-	:: atomic { step == 4 -> if :: (BE1 != 0) -> link[BYZ*N+HON(1)]!ECHO,BE1 :: else -> skip fi; step = 5 }
-	:: atomic { step == 5 -> if :: (BE2 != 0) -> link[BYZ*N+HON(2)]!ECHO,BE2 :: else -> skip fi; step = 6 }
-	:: atomic { step == 6 -> if :: (BR0 != 0) -> link[BYZ*N+HON(0)]!READY,BR0 :: else -> skip fi; step = 7 }
-	:: atomic { step == 7 -> if :: (BR1 != 0) -> link[BYZ*N+HON(1)]!READY,BR1 :: else -> skip fi; step = 8 }
-	:: atomic { step == 8 -> if :: (BR2 != 0) -> link[BYZ*N+HON(2)]!READY,BR2 :: else -> skip fi; step = 9 }
-	:: atomic { step == 9 -> if :: (BA0 != 0) -> link[BYZ*N+HON(0)]!ANSWER,BA0 :: else -> skip fi; step = 10 }
-	:: atomic { step == 10 -> if :: (BA1 != 0) -> link[BYZ*N+HON(1)]!ANSWER,BA1 :: else -> skip fi; step = 11 }
-	:: atomic { step == 11 -> if :: (BA2 != 0) -> link[BYZ*N+HON(2)]!ANSWER,BA2 :: else -> skip fi; step = 12 }
+end:	do
+	BSTEP(0, BS0, HON(0), SEND)
+	BSTEP(1, BS1, HON(1), SEND)
+	BSTEP(2, BS2, HON(2), SEND)
+	BSTEP(3, BE0, HON(0), ECHO)
+	BSTEP(4, BE1, HON(1), ECHO)
+	BSTEP(5, BE2, HON(2), ECHO)
+	BSTEP(6, BR0, HON(0), READY)
+	BSTEP(7, BR1, HON(1), READY)
+	BSTEP(8, BR2, HON(2), READY)
+	BSTEP(9, BA0, HON(0), ANSWER)
+	BSTEP(10, BA1, HON(1), ANSWER)
+	BSTEP(11, BA2, HON(2), ANSWER)
 	:: step == 12 -> break
 	od
 }
@@ -356,6 +378,10 @@ init
 		od;
 		if :: (SENDER != BYZ) -> run Broadcaster() :: else -> skip fi;
 		if :: (BYZ != 255) -> run Byzantine() :: else -> skip fi;
+#ifndef DMAX
 		run Monitor()
+#else
+		skip
+#endif
 	}
 }
